@@ -185,7 +185,7 @@ func judgeHistories(c *GenCtx) []Diff {
 			}
 			fv, _ := parseXJSON(d)
 			want := runSearch(expr, fv)
-			if ok, _ := agreeLoose(got, want); !ok {
+			if !sameOutcome(expr, got, want) {
 				out = append(out, jf("hist", expr, d, got, want, fmt.Sprintf("call %d on a reused Expression differs from a fresh one-shot Search", i)))
 			}
 			for j, p := range earlier {
@@ -203,6 +203,25 @@ func judgeHistories(c *GenCtx) []Diff {
 		}
 	}
 	return out
+}
+
+// mayEnumerate: the expression may range over an object's members (object wildcard, keys, values, items), so
+// that anything order-sensitive downstream legitimately varies from run to run.
+func mayEnumerate(e string) bool {
+	t := strings.ReplaceAll(e, "[*]", "")
+	return strings.Contains(t, "*") || strings.Contains(t, "keys(") || strings.Contains(t, "values(") || strings.Contains(t, "items(")
+}
+
+// sameOutcome: equal up to array order; two failures count as equal (which fault is reported may vary); where an
+// object is enumerated a difference is not held against the implementation.
+func sameOutcome(expr, a, b string) bool {
+	if ok, _ := agreeLoose(a, b); ok {
+		return true
+	}
+	if strings.HasPrefix(a, "err ") && strings.HasPrefix(b, "err ") {
+		return true
+	}
+	return mayEnumerate(expr) && !badAlone(a) && !badAlone(b)
 }
 
 // agreeLoose: outcomes equal up to the order of arrays (used where object enumeration may be involved).
@@ -261,7 +280,7 @@ func judgeConcurrent(c *GenCtx) []Diff {
 						got, _ = searchOutcome(e2, shared)
 					}
 				}
-				if ok, _ := agreeLoose(got, want); !ok {
+				if !sameOutcome(expr, got, want) {
 					mu.Lock()
 					out = append(out, jf("par", expr, d, got, want, "concurrent call differs from the sequential outcome"))
 					mu.Unlock()
@@ -354,10 +373,17 @@ func judgeFeedback(c *GenCtx) []Diff {
 	for k := 0; k < n; k++ {
 		e1 := c.expr(2)
 		e2 := c.expr(2)
+		if r.Chance(20) {
+			e1 = r.Pick([]string{"a * `1e6000`", "a * `-1e6000`", "[a * `9e6144`]", "{p: a / `1e-6000`}", "a + b", "a - `9e6144`", "to_number('1e6145')", "avg([a, `9e6144`])", "sum([a, `-9e6144`, `-9e6144`])"})
+			e2 = r.Pick([]string{"type(@)", "@", "to_string(@)", "[@]", "p", "[0]"})
+		}
 		if strings.Contains(e2, "$") || strings.Contains(e1, "let") {
 			continue
 		}
 		d := c.objDoc(3)
+		if r.Chance(20) {
+			d = `{"a":` + r.Pick([]string{"-1e200", "1e200", "-9e6144", "9e6144", "2", "-2"}) + `,"b":` + r.Pick([]string{"9e6144", "-9e6144", "1"}) + `}`
+		}
 		v, _ := parseXJSON(d)
 		r1, err := jmespath.Search(e1, v)
 		if err != nil {
@@ -377,7 +403,7 @@ func judgeFeedback(c *GenCtx) []Diff {
 		if strings.HasPrefix(want, "err syntax") {
 			continue
 		}
-		if ok, _ := agreeLoose(got, want); !ok {
+		if !sameOutcome(e1+" "+e2, got, want) {
 			out = append(out, jf("feed", e1+"  ;then;  "+e2, d, got, want, "search(e2, search(e1, d)) differs from search(e1 | e2, d)"))
 		}
 		if len(out) > 20 {
@@ -407,7 +433,7 @@ func judgeIdentities(pairs []identPair) []Diff {
 		if strings.HasPrefix(a, "err ") && strings.HasPrefix(b, "err ") {
 			continue // multi-fault expressions may report either fault
 		}
-		if ok, _ := agreeLoose(a, b); !ok {
+		if !sameOutcome(p.a, a, b) {
 			out = append(out, jf("ident", p.a+"   ≡   "+p.b, p.doc, a, b, "two spellings the language identities equate give different outcomes"))
 			if len(out) > 20 {
 				break
@@ -601,7 +627,7 @@ func judgeStatic(c *GenCtx, ops []Op) []Diff {
 			}
 			v2, _ := parseXJSON(d)
 			one := runSearch(e, v2)
-			if ok, _ := agreeLoose(got, one); !ok && !(strings.HasPrefix(got, "err ") && strings.HasPrefix(one, "err ")) {
+			if !sameOutcome(e, got, one) {
 				out = append(out, jf("static", e, d, got, one, "Expression.Search differs from one-shot Search"))
 			}
 		}
